@@ -4,12 +4,20 @@ import (
 	"crypto/sha256"
 	"fmt"
 	"os"
+	"sort"
 	"strings"
 	"sync"
 
 	"github.com/tsawler/tabula"
 	"github.com/tsawler/tabula/contentstream"
+	"github.com/tsawler/tabula/docx"
+	"github.com/tsawler/tabula/epubdoc"
+	"github.com/tsawler/tabula/htmldoc"
+	"github.com/tsawler/tabula/model"
+	"github.com/tsawler/tabula/odt"
+	"github.com/tsawler/tabula/pptx"
 	"github.com/tsawler/tabula/reader"
+	"github.com/tsawler/tabula/xlsx"
 )
 
 type c03doc struct {
@@ -77,6 +85,170 @@ func c03Extract(path string) [9]string {
 		}
 	}()
 	return out
+}
+
+// c03ReaderOps are the outputs one open format reader can be asked for, as strings.
+type c03ReaderOps struct {
+	format string
+	open   func(path string) (func(), map[string]func() string, error)
+}
+
+func c03DocText(d *model.Document, err error) string {
+	if err != nil || d == nil {
+		return "error"
+	}
+	var b strings.Builder
+	for _, p := range d.Pages {
+		fmt.Fprintf(&b, "page %d:", p.Number)
+		for _, e := range p.Elements {
+			fmt.Fprintf(&b, "%T|", e)
+		}
+		b.WriteString(p.ExtractText())
+	}
+	return b.String()
+}
+
+func c03Str(s string, err error) string {
+	if err != nil {
+		return "error: " + err.Error()
+	}
+	return s
+}
+
+func c03Readers() []c03ReaderOps {
+	return []c03ReaderOps{
+		{"docx", func(path string) (func(), map[string]func() string, error) {
+			rd, err := docx.Open(path)
+			if err != nil {
+				return nil, nil, err
+			}
+			return func() { rd.Close() }, map[string]func() string{
+				"Text":     func() string { return c03Str(rd.Text()) },
+				"Markdown": func() string { return c03Str(rd.Markdown()) },
+				"Document": func() string { return c03DocText(rd.Document()) },
+				"TextWithOptions(no headers, no footers)": func() string {
+					return c03Str(rd.TextWithOptions(docx.ExtractOptions{ExcludeHeaders: true, ExcludeFooters: true}))
+				},
+			}, nil
+		}},
+		{"odt", func(path string) (func(), map[string]func() string, error) {
+			rd, err := odt.Open(path)
+			if err != nil {
+				return nil, nil, err
+			}
+			return func() { rd.Close() }, map[string]func() string{
+				"Text":     func() string { return c03Str(rd.Text()) },
+				"Markdown": func() string { return c03Str(rd.Markdown()) },
+				"Document": func() string { return c03DocText(rd.Document()) },
+			}, nil
+		}},
+		{"xlsx", func(path string) (func(), map[string]func() string, error) {
+			rd, err := xlsx.Open(path)
+			if err != nil {
+				return nil, nil, err
+			}
+			return func() { rd.Close() }, map[string]func() string{
+				"Text":     func() string { return c03Str(rd.Text()) },
+				"Markdown": func() string { return c03Str(rd.Markdown()) },
+				"Document": func() string { return c03DocText(rd.Document()) },
+			}, nil
+		}},
+		{"pptx", func(path string) (func(), map[string]func() string, error) {
+			rd, err := pptx.Open(path)
+			if err != nil {
+				return nil, nil, err
+			}
+			all := pptx.ExtractOptions{IncludeNotes: true, IncludeTitles: true}
+			return func() { rd.Close() }, map[string]func() string{
+				"Text":                       func() string { return c03Str(rd.Text()) },
+				"Markdown":                   func() string { return c03Str(rd.Markdown()) },
+				"Document":                   func() string { return c03DocText(rd.Document()) },
+				"TextWithOptions(notes)":     func() string { return c03Str(rd.TextWithOptions(all)) },
+				"MarkdownWithOptions(notes)": func() string { return c03Str(rd.MarkdownWithOptions(all)) },
+				"Slide(0).Notes": func() string {
+					sl, err := rd.Slide(0)
+					if err != nil {
+						return "error"
+					}
+					return sl.Notes
+				},
+			}, nil
+		}},
+		{"epub", func(path string) (func(), map[string]func() string, error) {
+			rd, err := epubdoc.Open(path)
+			if err != nil {
+				return nil, nil, err
+			}
+			return func() { rd.Close() }, map[string]func() string{
+				"Text":     func() string { return c03Str(rd.Text()) },
+				"Markdown": func() string { return c03Str(rd.Markdown()) },
+				"Document": func() string { return c03DocText(rd.Document()) },
+			}, nil
+		}},
+		{"html", func(path string) (func(), map[string]func() string, error) {
+			rd, err := htmldoc.Open(path)
+			if err != nil {
+				return nil, nil, err
+			}
+			return func() { rd.Close() }, map[string]func() string{
+				"Text":     func() string { return c03Str(rd.Text()) },
+				"Markdown": func() string { return c03Str(rd.Markdown()) },
+				"Document": func() string { return c03DocText(rd.Document()) },
+			}, nil
+		}},
+	}
+}
+
+// c03OneReader asks one open reader for every output twice and in two orders; each answer must be what a
+// fresh reader gives for the same question.
+func c03OneReader(r *Run, ops c03ReaderOps, path string) {
+	var names []string
+	fresh := map[string]string{}
+	{
+		_, m, err := ops.open(path)
+		if err != nil {
+			r.Check(false, "history:calls-on-one-reader:"+ops.format, "generated document does not open: "+err.Error(), Bs(path))
+			return
+		}
+		for n := range m {
+			names = append(names, n)
+		}
+		sort.Strings(names)
+	}
+	for _, n := range names {
+		cl, m, err := ops.open(path)
+		if err != nil {
+			return
+		}
+		fresh[n] = m[n]()
+		cl()
+	}
+	cl, m, err := ops.open(path)
+	if err != nil {
+		return
+	}
+	defer cl()
+	var seq []string
+	seq = append(seq, names...)
+	seq = append(seq, names...)
+	for i := len(names) - 1; i >= 0; i-- {
+		seq = append(seq, names[i])
+	}
+	why := ""
+	for k, n := range seq {
+		if got := m[n](); got != fresh[n] {
+			why = fmt.Sprintf("%s as call %d on one %s reader (after %v) gives %q, a fresh reader gives %q", n, k+1, ops.format, seq[:k], c03Clip(got), c03Clip(fresh[n]))
+			break
+		}
+	}
+	r.Check(why == "", "history:calls-on-one-reader:"+ops.format, why, Bs(path))
+}
+
+func c03Clip(s string) string {
+	if len(s) > 300 {
+		return s[:300] + "..."
+	}
+	return s
 }
 
 func init() {
@@ -228,6 +400,67 @@ func init() {
 				r.Check(okR && strings.Contains(alone[0], "XYZ") && strings.Contains(alone[1], "ABC page two"), "history:pages-of-one-reader", why, Bs(path))
 			} else {
 				r.Check(false, "history:pages-of-one-reader", "generated document does not open: "+err.Error(), Bs(path))
+			}
+		}
+		// (0c) one open reader of every other format asked for all its outputs, twice and in two orders
+		{
+			ws := func(tag string, n int) []string {
+				var out []string
+				for k := 0; k < n; k++ {
+					out = append(out, fmt.Sprintf("%s word%d and more text. Second sentence %d.", tag, k, k))
+				}
+				return out
+			}
+			// a presentation whose first slide has speaker notes of three paragraphs
+			ms := mkPPTXSimple(ws("Slide", 3))
+			notes := `<?xml version="1.0"?><p:notes xmlns:a="http://schemas.openxmlformats.org/drawingml/2006/main" xmlns:p="http://schemas.openxmlformats.org/presentationml/2006/main"><p:cSld><p:spTree><p:sp><p:nvSpPr><p:cNvPr id="2" name="Notes"/><p:cNvSpPr/><p:nvPr><p:ph type="body" idx="1"/></p:nvPr></p:nvSpPr><p:spPr/><p:txBody><a:bodyPr/><a:p><a:r><a:t>first note paragraph</a:t></a:r></a:p><a:p><a:r><a:t>second note paragraph</a:t></a:r></a:p><a:p><a:r><a:t>third</a:t></a:r></a:p></p:txBody></p:sp></p:spTree></p:cSld></p:notes>`
+			var slide1 string
+			for _, m := range ms {
+				if strings.HasPrefix(m.Name, "ppt/slides/") && strings.HasSuffix(m.Name, ".xml") && slide1 == "" {
+					slide1 = m.Name
+				}
+			}
+			if slide1 != "" {
+				base := slide1[strings.LastIndex(slide1, "/")+1:]
+				ms = append(ms, zipMember{Name: "ppt/notesSlides/notesSlide1.xml", Data: []byte(notes)})
+				ms = append(ms, zipMember{Name: "ppt/slides/_rels/" + base + ".rels", Data: []byte(`<?xml version="1.0"?><Relationships xmlns="http://schemas.openxmlformats.org/package/2006/relationships"><Relationship Id="rIdN" Type="http://schemas.openxmlformats.org/officeDocument/2006/relationships/notesSlide" Target="../notesSlides/notesSlide1.xml"/></Relationships>`)})
+			}
+			files := map[string]string{
+				"docx": tmpFile(r, ".docx", writeZip(mkDOCXSimple(ws("Docx", 4)))),
+				"odt":  tmpFile(r, ".odt", writeZip(mkODTSimple(ws("Odt", 4)))),
+				"xlsx": tmpFile(r, ".xlsx", writeZip(mkXLSXSimple(ws("Cell", 5)))),
+				"pptx": tmpFile(r, ".pptx", writeZip(ms)),
+				"epub": tmpFile(r, ".epub", writeZip(mkEPUBSimple(ws("Chapter", 3)))),
+				"html": tmpFile(r, ".html", mkHTMLSimple(ws("Para", 4))),
+			}
+			for _, ops := range c03Readers() {
+				c03OneReader(r, ops, files[ops.format])
+			}
+			// the notes must really be there, or the check above says nothing about them
+			if rd, err := pptx.Open(files["pptx"]); err == nil {
+				md, _ := rd.MarkdownWithOptions(pptx.ExtractOptions{IncludeNotes: true, IncludeTitles: true})
+				r.Check(strings.Contains(md, "second note paragraph"), "history:calls-on-one-reader:pptx", "the generated presentation's speaker notes are not in its Markdown: "+c03Clip(md), Bs(files["pptx"]))
+				rd.Close()
+			}
+		}
+		// (0d) extractors derived from one configured extractor, before any of them runs: each reads its own pages
+		{
+			var pages []string
+			for k := 1; k <= 7; k++ {
+				pages = append(pages, fmt.Sprintf("only on page %d", k))
+			}
+			path := tmpFile(r, ".pdf", mkPDFSimple(pages))
+			txt := func(e *tabula.Extractor) string { t, _, err := e.Text(); return c03Str(t, err) }
+			for _, n := range []int{1, 2, 3, 4, 5} {
+				base := tabula.Open(path).PageRange(1, n)
+				a, b := base.Pages(6), base.Pages(7)
+				ta, tb, t0 := txt(a), txt(b), txt(base)
+				wa, wb, w0 := txt(tabula.Open(path).PageRange(1, n).Pages(6)), txt(tabula.Open(path).PageRange(1, n).Pages(7)), txt(tabula.Open(path).PageRange(1, n))
+				why := ""
+				if ta != wa || tb != wb || t0 != w0 {
+					why = fmt.Sprintf("PageRange(1,%d) then .Pages(6) and .Pages(7) derived side by side read %q and %q, the base %q; built alone they read %q, %q and %q", n, c03Clip(ta), c03Clip(tb), c03Clip(t0), c03Clip(wa), c03Clip(wb), c03Clip(w0))
+				}
+				r.Check(why == "", "history:derived-extractors", why, Bs(path))
 			}
 		}
 		// (a) repetition
